@@ -1199,7 +1199,10 @@ def random_scope_ops(rng, real, n):
 
 # ================================================================== (d) on the interpreted screen: indented ANSI sections
 def screen_base(op):
-    return {"op": op, "w": 80, "dec": True, "what": "", "line": [], "ind": 0, "ops": [], "res": "ok"}
+    return {"op": op, "w": 80, "fk": "", "sa": False, "what": "", "line": [], "ind": 0, "ops": [], "res": "ok"}
+
+
+SCREEN_FMT = {"forced": ("forced", False), "ansistream": ("ansi", True), "plain": ("plain", False), "plain-ansi": ("plain", True)}
 
 
 def run_screen_case(case):
@@ -1221,14 +1224,14 @@ def run_screen_case(case):
     try:
         try:
             Rec = G._rec_class()
-            forced = case["fmt"] == "forced"
-            if case["fmt"].startswith("plain"):
-                rec = Rec(BufferedOutputStream(), True if case["fmt"] == "plain-ansi" else None)
-                parent = Output(rec, PlainFormatter())
-                evs[0]["dec"] = False
-            else:
-                rec = Rec(BufferedOutputStream(), None if forced else True)
-                parent = Output(rec, AnsiFormatter(forced=forced))
+            fk0, sa = SCREEN_FMT[case["fmt"]]
+            evs[0].update(fk=fk0, sa=sa)
+
+            def fmt(k):
+                return PlainFormatter() if k == "plain" else AnsiFormatter(forced=(k == "forced"))
+
+            rec = Rec(BufferedOutputStream(), True if sa else None)
+            parent = Output(rec, fmt(fk0))
             secs = []
             for n in case["inds"]:
                 if case["route"] == "parent":
@@ -1243,6 +1246,15 @@ def run_screen_case(case):
             return evs
         t = 0
         for op in case["ops"]:
+            if op["op"] == "set_formatter":  # the parent and every section get a formatter of this kind
+                ev = dict(screen_base("rewire"), fk=op["fk"], what="set_formatter")
+                try:
+                    for o in [parent] + secs:
+                        o.set_formatter(fmt(op["fk"]))
+                except Exception as e:  # noqa
+                    ev["res"] = type(e).__name__
+                evs.append(ev)
+                continue
             sec, n = secs[op["s"] - 1], case["inds"][op["s"] - 1]
             ev = dict(screen_base("op"), what=op["op"] + ("/scope" if case["route"] == "scope" else ""), ind=n)
             text = ""
@@ -1311,6 +1323,12 @@ def screen_programs(rng, quick):
         # the same program on an undecorated output: PlainFormatter, on a plain stream and on one that reports ANSI support
         route, inds = settings[i % len(settings)]
         cases.append({"part": "screen", "fmt": "plain-ansi" if i % 4 else "plain", "route": route, "inds": inds, "ops": ops})
+        # built decorated, given a plain formatter after the first operation (and the other way round): from then on the
+        # outputs must behave like ones built on the new pair
+        if i % 2 == 0 and len(ops) >= 2:
+            fmt0, fk1 = (("ansistream", "plain"), ("forced", "plain"), ("plain-ansi", "ansi"))[(i // 2) % 3]
+            cases.append({"part": "screen", "fmt": fmt0, "route": route, "inds": inds,
+                          "ops": [ops[0], {"op": "set_formatter", "fk": fk1}] + ops[1:]})
     for i in range(150 if quick else 3000):
         nsec = rng.randint(2, 3)
         cnt, ops = [0] * nsec, []
@@ -1325,6 +1343,8 @@ def screen_programs(rng, quick):
                     k = rng.randint(1, cnt[sct - 1])
             cnt[sct - 1] = cnt[sct - 1] + 1 if name == "line" else 1 if name == "overwrite" else 0 if name == "clear" else cnt[sct - 1] - k
             ops.append({"op": name, "s": sct, "k": k})
+            if rng.random() < 0.12:
+                ops.append({"op": "set_formatter", "fk": rng.choice(["plain", "plain", "ansi", "forced"])})
         cases.append({"part": "screen", "fmt": rng.choice(["forced", "ansistream", "plain-ansi", "plain"]), "route": rng.choice(["parent", "section", "scope"]),
                       "inds": [rng.choice([0, 1, 2, 3, 5]) for _ in range(nsec)], "ops": ops})
     return cases
